@@ -1,0 +1,16 @@
+//go:build verif
+
+// SPDX-License-Identifier: Apache-2.0
+
+package backoff
+
+import "math/rand"
+
+// VerifC20SetRandom replaces the random source of the jittered strategies (verification
+// harness, property C20: the draws become reproducible). Call it while no other goroutine
+// uses the package. It returns the previous source. Add-only; compiled with -tags verif only.
+func VerifC20SetRandom(r *rand.Rand) *rand.Rand {
+	old := random
+	random = r
+	return old
+}
